@@ -175,6 +175,9 @@ def judge_lookups(ctx, tree, rr):
                 ctx.obs("refused")
                 if named and not inside:
                     ctx.obs("refused_name_that_the_os_resolves_outside_the_root")
+                    nk = tree.near_kind(named)
+                    if nk:
+                        ctx.obs("refused_near_root_" + nk.replace("-", "_"))
                     if named == tree.secret:
                         ctx.obs("refused_name_that_resolves_to_the_secret")
                 if b".." in name.split(b"/"):
@@ -394,6 +397,7 @@ def run(ctx):
         leaves=leaves if len(leaves) <= 80 else leaves[:80] + [dict(truncated=len(leaves) - 80)])
     ctx.extra["non_regular_objects"] = dict(static=tree.specials["static"], templates=tree.specials["templates"], ext=tree.specials["ext"],
                                             note="plus symlinks to them and to /dev/null, /dev/zero, /dev; .gz siblings that are pipes, sockets, directories, device links")
+    ctx.extra["near_root_directories"] = sorted((os.path.relpath(d, tree.case), k) for d, k in tree.near.items())
     ctx.extra["tree"] = dict(static_files=len(tree.files["static"]), static_symlinks=len(tree.links["static"]), template_files=len(tree.files["templates"]),
                              ext_files=len(tree.files["ext"]), symlinks=tree.links["static"])
     ctx.rule = ("a lookup that reports Found must return the exact bytes of a file that os.lstat says is regular and whose os.path.realpath lies under the "
@@ -413,7 +417,9 @@ def run(ctx):
                     "refused_name_that_resolves_to_the_secret", "refused_name_that_the_os_resolves_outside_the_root", "refused_dotdot_segment",
                     "sweep_windows", "sweep_swaps_fired", "sweep_call_realpath", "sweep_call_stat", "sweep_call_io",
                     "race_flips", "race_found", "sweep_result_found", "sweep_result_notfound", "sweep_result_rejected",
-                    "refused_non_regular_fifo", "refused_non_regular_socket", "refused_non_regular_chardev")
+                    "refused_non_regular_fifo", "refused_non_regular_socket", "refused_non_regular_chardev",
+                    "refused_near_root_case_variant", "refused_near_root_case_variant_ancestor", "refused_near_root_suffix_sibling",
+                    "refused_near_root_trailing_dot", "refused_near_root_trailing_space", "refused_near_root_lookalike")
     shutil.rmtree(tree.case, ignore_errors=True)
 
 
